@@ -402,70 +402,22 @@ Proof.
     + split; [discriminate|]. intro H. specialize (H d (or_introl eq_refl)). congruence.
 Qed.
 
-Lemma walk_dirs_range : forall ds m r, walk_dirs m ds = Some r -> r = RNotDir \/ r = RNotExist.
+Lemma walk_dirs_range : forall ds m r, walk_dirs m ds = Some r -> r = RNotExist.
 Proof.
   induction ds as [|d ds IH]; intros m r; simpl; [discriminate|].
   destruct (fget d m) as [[c|]|]; [intro H; injection H as <-; auto | apply IH | intro H; injection H as <-; auto].
 Qed.
 
-Lemma walk_dirs_notexist : forall ds m,
-  (forall k e q, fget k m = Some e -> pp q k -> fget q m = Some D) -> chain ds ->
-  walk_dirs m ds = Some RNotExist -> forall d, In d ds -> forall c, fget d m <> Some (F c).
-Proof.
-  induction ds as [|d0 ds IH]; intros m Hanc Hch Hw d Hin c; simpl in *; [contradiction|].
-  destruct Hch as [Hch1 Hch2].
-  destruct (fget d0 m) as [[c0|]|] eqn:E.
-  - discriminate.
-  - destruct Hin as [<-|Hin]; [rewrite E; discriminate | eapply IH; eauto].
-  - destruct Hin as [<-|Hin]; [rewrite E; discriminate|].
-    intro Hg. rewrite (Hanc _ _ _ Hg (Hch1 _ Hin)) in E. discriminate.
-Qed.
-
-Lemma walk_dirs_notdir : forall ds m, walk_dirs m ds = Some RNotDir ->
-  exists d c, In d ds /\ fget d m = Some (F c).
-Proof.
-  induction ds as [|d0 ds IH]; intros m; simpl; [discriminate|].
-  destruct (fget d0 m) as [[c0|]|] eqn:E.
-  - intros _. exists d0, c0. auto.
-  - intro H. destruct (IH _ H) as [d [c [Hin Hg]]]. exists d, c. auto.
-  - discriminate.
-Qed.
-
 Lemma read_spec m p : inv m -> p <> [] -> read m p = spec_read (files m) p.
 Proof.
-  intros Hinv Hp. unfold read, spec_read. rewrite (sget_files _ _ Hinv).
+  intros Hinv Hp. unfold read, spec_read, spec_read_strict. rewrite (sget_files _ _ Hinv).
   destruct (walk_dirs m (parents p)) as [r|] eqn:Ew.
-  - assert (Hnone : match fget p m with Some (F c) => Some c | _ => None end = None).
-    { destruct (fget p m) as [[c|]|] eqn:Ep; try reflexivity. exfalso.
-      assert (Hall : forall d, In d (parents p) -> fget d m = Some D).
-      { intros d Hd. apply in_parents in Hd as [_ Hd]. eapply (inv_anc _ Hinv); eauto. }
-      apply walk_dirs_none in Hall. congruence. }
-    rewrite Hnone.
-    destruct (walk_dirs_range _ _ _ Ew) as [-> | ->].
-    + destruct (walk_dirs_notdir _ _ Ew) as [d [c [Hin Hg]]].
-      assert (Ha : above p (files m) = true) by (apply (above_parents _ _ Hinv); eauto).
-      rewrite Ha. reflexivity.
-    + assert (Ha : above p (files m) = false).
-      { destruct (above p (files m)) eqn:Ea; [|reflexivity]. exfalso.
-        apply (above_parents _ _ Hinv) in Ea as [d [c [Hin Hg]]].
-        eapply (walk_dirs_notexist _ _ (inv_anc _ Hinv) (chain_parents p) Ew); eauto. }
-      rewrite Ha.
-      assert (Hb : below p (files m) = false).
-      { destruct (below p (files m)) eqn:Eb; [|reflexivity]. exfalso.
-        apply (below_spec _ _ Hinv Hp) in Eb.
-        assert (Hall : forall d, In d (parents p) -> fget d m = Some D).
-        { intros d Hd. apply in_parents in Hd as [_ Hd]. eapply (inv_anc _ Hinv); eauto. }
-        apply walk_dirs_none in Hall. congruence. }
-      rewrite Hb. reflexivity.
-  - assert (Ha : above p (files m) = false).
-    { destruct (above p (files m)) eqn:Ea; [|reflexivity]. exfalso.
-      apply (above_parents _ _ Hinv) in Ea as [d [c [Hin Hg]]].
-      rewrite (proj1 (walk_dirs_none _ _) Ew d Hin) in Hg. discriminate. }
-    destruct (fget p m) as [[c|]|] eqn:Ep.
-    + reflexivity.
-    + rewrite Ha. apply (below_spec _ _ Hinv Hp) in Ep. rewrite Ep. reflexivity.
-    + rewrite Ha. destruct (below p (files m)) eqn:Eb; [|reflexivity].
-      apply (below_spec _ _ Hinv Hp) in Eb. congruence.
+  - rewrite (walk_dirs_range _ _ _ Ew).
+    destruct (fget p m) as [[c|]|] eqn:Ep; try reflexivity. exfalso.
+    assert (Hall : forall d, In d (parents p) -> fget d m = Some D).
+    { intros d Hd. apply in_parents in Hd as [_ Hd]. eapply (inv_anc _ Hinv); eauto. }
+    apply walk_dirs_none in Hall. congruence.
+  - destruct (fget p m) as [[c|]|]; reflexivity.
 Qed.
 
 (* ------------------------------------------------- operation sequences *)
@@ -541,8 +493,7 @@ Lemma step_strict s o : deviating s o = false -> step_spec true s o = step_spec 
 Proof.
   destruct o as [n c|n|pre]; simpl; intro H.
   - reflexivity.
-  - unfold spec_read_strict, spec_read. destruct (sget (components n) s); [reflexivity|].
-    unfold collides in H. apply orb_false_iff in H as [-> ->]. reflexivity.
+  - reflexivity.
   - unfold spec_list. rewrite (listing_strict _ _ H). reflexivity.
 Qed.
 
@@ -567,10 +518,9 @@ Proof. intro H. rewrite (run_strict _ _ H). apply refinement. Qed.
 (* ------------------------------------------- single operations, by name *)
 Lemma spec_read_ok s q c : spec_read s q = ROk c <-> sget q s = Some c.
 Proof.
-  unfold spec_read. destruct (sget q s) as [c0|].
+  unfold spec_read, spec_read_strict. destruct (sget q s) as [c0|].
   - split; intro H; injection H as ->; reflexivity.
-  - destruct (above q s); [split; discriminate|].
-    destruct (below q s); split; discriminate.
+  - split; discriminate.
 Qed.
 
 Theorem write_read m n c m' : reachable m ->
@@ -606,21 +556,12 @@ Proof.
   intro Hr. rewrite (read_spec _ _ (reachable_inv _ Hr) (components_nonempty n)). apply spec_read_ok.
 Qed.
 
+(* every absent object reports not-exist, colliding names included *)
 Theorem read_absent_not_exist m n : reachable m ->
-  sget (components n) (files m) = None -> collides (components n) (files m) = false ->
-  read m (components n) = RNotExist.
+  sget (components n) (files m) = None -> read m (components n) = RNotExist.
 Proof.
-  intros Hr Hs Hc. rewrite (read_spec _ _ (reachable_inv _ Hr) (components_nonempty n)).
-  unfold spec_read. rewrite Hs. unfold collides in Hc. apply orb_false_iff in Hc as [-> ->]. reflexivity.
-Qed.
-
-Theorem read_absent_colliding m n : reachable m ->
-  sget (components n) (files m) = None -> collides (components n) (files m) = true ->
-  read m (components n) = RIsDir \/ read m (components n) = RNotDir.
-Proof.
-  intros Hr Hs Hc. rewrite (read_spec _ _ (reachable_inv _ Hr) (components_nonempty n)).
-  unfold spec_read. rewrite Hs. unfold collides in Hc.
-  destruct (above (components n) (files m)); [auto|]. simpl in Hc. rewrite Hc. auto.
+  intros Hr Hs. rewrite (read_spec _ _ (reachable_inv _ Hr) (components_nonempty n)).
+  unfold spec_read, spec_read_strict. rewrite Hs. reflexivity.
 Qed.
 
 Lemma sorted_strongly {V} (l : list (path * V)) : sorted path_cmp l ->
@@ -934,13 +875,13 @@ Proof.
 Qed.
 
 (* counter-examples (the two deviations) *)
-Definition ops_read_dir : list op := [OWrite [97; 47; 98] [1]; ORead [97]].
+Definition ops_read_dir : list op := [OWrite [97; 47; 98] [1]; ORead [97]; OWrite [99] [2]; ORead [99; 47; 100]].
 Definition ops_list_nonutf8 : list op := [OWrite [128; 47; 120] [1]; OList []].
 
-Lemma read_absent_refuted :
+(* the former deviation, now an instance of the positive theorem *)
+Lemma read_colliding_example :
   forallb op_ok ops_read_dir = true /\
-  fst (run_spec true [] ops_read_dir) = [RW true; RR RNotExist] /\
-  fst (run_fs fs_init ops_read_dir) = [RW true; RR RIsDir].
+  fst (run_fs fs_init ops_read_dir) = [RW true; RR RNotExist; RW true; RR RNotExist].
 Proof. vm_compute. auto. Qed.
 
 Lemma list_exact_refuted :
